@@ -59,6 +59,18 @@ CLAIM = dict(
          'binary64 (PrimFloat) evaluation of the same Gallina terms for 1..3 sweeps over all option paths (e, '
          'e_vld, cb, nswp=0, allow_skip_cores, permuted samples, restart) within 1e-9 relative, status / nswp / stop '
          'exact; rank-adaptive runs with the recorded outputs of orthogonalize / matrix_skeleton replayed. '
+         'Cross-cutting families (correspondence with the model on the canonical input, and search): ARGUMENT FORMS '
+         '(I_trn list / tuple / int32 / int64 / uint8 / F-ordered / non-contiguous; y list / float32 / float16 / int; w float32 / '
+         'int / non-contiguous; lamb, nswp, r, r_add as NumPy scalars; Y0 / A0 tuple, F-ordered, non-contiguous; flags as int / '
+         'np.bool_; defaults passed explicitly; als_func X list / float32 / F-ordered, a, b int / np.float32 / np.float64, fh one '
+         'function / list / tuple) must give the canonical answer; HISTORIES (2-4 calls on the same I / y / w / Y0 / A0 objects, '
+         'info omitted and one info dict reused, arguments bit-identical afterwards, no aliasing, restart through the returned '
+         'object); SCALES / DEGENERATE (single sample, mode size 1, d = 2, duplicates only, (w, lamb) * 2^k for k = -1000 .. 940 '
+         'exactly invariant, y * 2^+-300: descent / shape / info in the search only - the normal equations are then numerically '
+         'singular, so no core-by-core correspondence). Undocumented forms that RAISE on the unchanged tree and are therefore '
+         'only required not to return a different answer: Y0 / A0 with int-dtype cores (UFuncTypeError), w as a list (TypeError), '
+         'a, b as 0-d arrays (TypeError); float32 cores return a float32 result (kept out). The rank-adaptive mode is required '
+         'to reject missing slice data as well. '
          'Not modelled: allow_swap=True, update_sol, lamb=None, use_stab, log, info[t], info[r], negative indices; '
          'als_func with n_max set, with a basis wider than the mode size of A0 (unequal mode sizes in the default path) '
          'or with vector-valued a, b; in the adaptive mode an index pair '
@@ -537,6 +549,33 @@ def stream_als_f(R, ctx, tn):
             # a stop reason set in front of the loop is kept when the callback returns True after the first sweep
             i1 = run_als(tn, c, nswp=0, cb=lambda Y, info, opts: True)
             add(c, i1, als_f_term(c, None, 0, t0=1), 'nswp0+cb', t0=1)
+    # cross-cutting families: the implementation is called in another argument form / on reused objects / with an exact
+    # power-of-two rescaling of (w, lamb) / on degenerate shapes; the model evaluates the canonical input
+    for t in range(24 if ctx['thorough'] else 8):
+        c = gen_case(rng, family=['generic', 'weights', 'dup', 'singlep'][t % 4], d=[2, 3, 3, 4][t % 4])
+        forms = [f_ for f_ in als_forms(c) if f_[2]]
+        name, over, _ = forms[rng.randrange(len(forms))]
+        over = dict(over)
+        over.setdefault('nswp', c['nswp'])
+        if name.startswith('nswp'):
+            over['nswp'] = type(over['nswp'])(c['nswp'])
+        add(c, call_als(tn, canon_kw(c, **over)), als_f_term(c, None, c['nswp']), 'form: ' + name)
+        if t % 2 == 0:
+            kw = canon_kw(c, nswp=c['nswp'])
+            with warnings.catch_warnings():
+                warnings.simplefilter('ignore')
+                try:
+                    tn.als(**kw)                                   # first call, module-level default info
+                except Exception:  # noqa
+                    pass
+            add(c, call_als(tn, dict(kw, info=None)), als_f_term(c, None, c['nswp']), 'second call on the same objects')
+        else:
+            k = rng.choice([300, -300, 900, -1000])
+            c2 = dict(c, lamb=float(c['lamb']) * 2.0 ** k, w=[float(v) * 2.0 ** k for v in ones(c)])
+            add(c2, run_als(tn, c2), als_f_term(c2, None, c['nswp']), 'w, lamb * 2^k', k=k)
+    for t, fam in enumerate(['m1', 'n1', 'd2', 'dup-only'] * (3 if ctx['thorough'] else 1)):
+        c = gen_degenerate(rng, fam)
+        add(c, run_als(tn, c), als_f_term(c, None, c['nswp']), 'degenerate: ' + fam)
     # all permutations of a small sample set
     c = gen_case(rng, family='single0', d=3)
     c['I'], c['y'] = c['I'][:max(c['shape']) + 1], c['y'][:max(c['shape']) + 1]
@@ -1005,7 +1044,322 @@ def oracle_stop(tn, c, rng):
     return None
 
 
+# ---------------------------------------------------------------------------------------------- cross-cutting families
+def _noncontig(A):
+    A = np.asarray(A)
+    B = np.zeros(A.shape[:-1] + (2 * A.shape[-1],), dtype=A.dtype)
+    B[..., ::2] = A
+    return B[..., ::2]
+
+
+def als_forms(c):
+    """(name, kwargs-override, must_succeed) : alternative forms of the arguments of als; values are exactly representable"""
+    I = np.array(c['I'], dtype=int)
+    y = np.array([float(v) for v in c['y']])
+    Y0 = [np.array(G, dtype=float) for G in c['Y0']]
+    w = None if c['w'] is None else np.array([float(v) for v in c['w']])
+    lam = float(c['lamb'])
+    F = [('I list', dict(I_trn=I.tolist()), True), ('I tuple', dict(I_trn=tuple(map(tuple, I.tolist()))), True),
+         ('I int32', dict(I_trn=I.astype(np.int32)), True), ('I int64', dict(I_trn=I.astype(np.int64)), True),
+         ('I uint8', dict(I_trn=I.astype(np.uint8)), True), ('I F-ordered', dict(I_trn=np.asfortranarray(I)), True),
+         ('I non-contiguous', dict(I_trn=_noncontig(I)), True),
+         ('y list', dict(y_trn=y.tolist()), True), ('y float32', dict(y_trn=y.astype(np.float32)), True),
+         ('y int', dict(y_trn=y.astype(int)), True), ('y float16', dict(y_trn=y.astype(np.float16)), True),
+         ('lamb np.float64', dict(lamb=np.float64(lam)), True), ('lamb np.float32', dict(lamb=np.float32(lam)), True),
+         ('lamb 0-d', dict(lamb=np.array(lam)), True),
+         ('nswp np.int64', dict(nswp=np.int64(2)), True), ('nswp np.int32', dict(nswp=np.int32(2)), True),
+         ('Y0 tuple', dict(Y0=tuple(G.copy() for G in Y0)), True),
+         ('Y0 F-ordered', dict(Y0=[np.asfortranarray(G) for G in Y0]), True),
+         ('Y0 non-contiguous', dict(Y0=[_noncontig(G) for G in Y0]), True),
+         ('Y0 int cores', dict(Y0=[G.astype(int) for G in Y0]), False),
+         ('skip as int', dict(allow_skip_cores=1 if c['skip'] else 0), True),
+         ('skip np.bool_', dict(allow_skip_cores=np.bool_(c['skip'])), True),
+         ('defaults explicit', dict(r=None, r_add=10000, e_adap=1.E-3, cb=None, I_vld=None,
+                                                                                 y_vld=None, e_vld=None, use_stab=False, log=False), True)]
+    if w is not None:
+        F += [('w float32', dict(w=w.astype(np.float32)), True), ('w list', dict(w=w.tolist()), False),
+              ('w F/non-contiguous', dict(w=_noncontig(w)), True)]
+    else:
+        F += [('w ones', dict(w=np.ones(len(y))), True), ('w int ones', dict(w=np.ones(len(y), dtype=int)), True)]
+    return F
+
+
+def call_als(tn, kw):
+    info = kw.pop('info', None)
+    info = {} if info is None else info
+    try:
+        with warnings.catch_warnings():
+            warnings.simplefilter('ignore')
+            Y = tn.als(info=info, **kw)
+        return dict(status=0, nswp=int(info['nswp']), stop=STOP.get(info['stop'], -1), cores=[np.array(G) for G in Y], raw=Y, info=info)
+    except Exception as ex:  # noqa
+        return dict(status=C.errclass(ex), error=repr(ex)[:200])
+
+
+def canon_kw(c, nswp=2, **over):
+    kw = dict(I_trn=np.array(c['I'], dtype=int), y_trn=np.array([float(v) for v in c['y']]),
+              Y0=[np.array(G, dtype=float) for G in c['Y0']], nswp=nswp, e=None, lamb=float(c['lamb']),
+              w=None if c['w'] is None else np.array([float(v) for v in c['w']]), allow_skip_cores=c['skip'])
+    kw.update(over)
+    return kw
+
+
+def oracle_forms(tn, c):
+    """every documented argument form gives the answer of the canonical form (values exactly representable)"""
+    ref = call_als(tn, canon_kw(c))
+    if ref['status'] != 0:
+        return None
+    for name, over, must in als_forms(c):
+        if must is None:
+            continue
+        res = call_als(tn, canon_kw(c, **over))
+        if res['status'] != 0:
+            if must:
+                return dict(what=f'als: documented argument form "{name}" is rejected: ' + res.get('error', ''), form=name)
+            continue
+        ok, why = cores_close(res['cores'], ref['cores'], 1e-12 if must else 1e-5)
+        if not ok or res['nswp'] != ref['nswp'] or res['stop'] != ref['stop']:
+            return dict(what=f'als: argument form "{name}" silently gives a different answer than the canonical form', got=why, form=name)
+    # adaptive: r / r_add as NumPy scalars
+    if len(c['shape']) >= 3:
+        ra = call_als(tn, canon_kw(c, nswp=1, r=2, allow_skip_cores=True))
+        if ra['status'] == 0:
+            for name, over in (('r np.int64', dict(r=np.int64(2))), ('r np.int32', dict(r=np.int32(2))),
+                               ('r_add np.int64', dict(r=2, r_add=np.int64(10000)))):
+                rb = call_als(tn, canon_kw(c, nswp=1, allow_skip_cores=True, **dict(dict(r=2), **over)))
+                ok, why = cores_close(rb.get('cores', []), ra['cores'], 1e-12)
+                if not ok:
+                    return dict(what=f'als (adaptive): argument form "{name}" changes the answer or is rejected: ' + rb.get('error', ''),
+                                got=why, form=name)
+    return None
+
+
+def _snap(x):
+    if x is None:
+        return None
+    if isinstance(x, (list, tuple)):
+        return [_snap(v) for v in x]
+    x = np.asarray(x)
+    return (x.dtype.str, x.shape, x.tobytes())
+
+
+def oracle_history(tn, c):
+    """2-3 calls on the SAME argument objects (info omitted, then one shared dict): every call equals the reference from a
+    saved copy, the arguments are bit-identical afterwards, results do not alias the arguments; restart through reused objects"""
+    ref = {t: call_als(tn, canon_kw(c, nswp=t)) for t in (1, 2, 3)}
+    if any(r_['status'] != 0 for r_ in ref.values()):
+        return None
+    kw = canon_kw(c)
+    objs = dict(I_trn=kw['I_trn'], y_trn=kw['y_trn'], Y0=kw['Y0'], w=kw['w'])
+    before = {k: _snap(v) for k, v in objs.items()}
+    shared = {}
+    outs = []
+    for call, (t, info) in enumerate([(2, 'omit'), (2, 'omit'), (3, shared), (1, shared)]):
+        k2 = dict(kw, nswp=t)
+        try:
+            with warnings.catch_warnings():
+                warnings.simplefilter('ignore')
+                Y = tn.als(**k2) if info == 'omit' else tn.als(info=info, **k2)
+        except Exception as ex:  # noqa
+            return dict(what=f'als: call {call + 1} on reused argument objects raised: ' + repr(ex)[:150])
+        ok, why = cores_close(Y, ref[t]['cores'], 1e-12)
+        if not ok:
+            return dict(what=f'als: call {call + 1} on the same argument objects differs from the reference computed from a saved copy',
+                        got=why, call=call + 1)
+        if info != 'omit' and (info.get('nswp') != t or info.get('stop') != 'nswp'):
+            return dict(what='als: a reused info dictionary does not report this call', got=[info.get('nswp'), info.get('stop')], call=call + 1)
+        for k_, v in objs.items():
+            if _snap(v) != before[k_]:
+                return dict(what=f'als: argument {k_} is modified by the call', call=call + 1)
+        for G in Y:
+            for G0 in kw['Y0']:
+                if np.shares_memory(G, G0):
+                    return dict(what='als: the result aliases the initial approximation', call=call + 1)
+        outs.append(Y)
+    # restart through reused objects: Ya is an argument of the next call and must stay what it was
+    Ya = tn.als(kw['I_trn'], kw['y_trn'], kw['Y0'], nswp=1, e=None, lamb=kw['lamb'], w=kw['w'], allow_skip_cores=c['skip'])
+    sa = _snap(Ya)
+    Yb = tn.als(kw['I_trn'], kw['y_trn'], Ya, nswp=2, e=None, lamb=kw['lamb'], w=kw['w'], allow_skip_cores=c['skip'])
+    ok, why = cores_close(Yb, ref[3]['cores'], 1e-12)
+    if not ok:
+        return dict(what='als: 1 sweep, then 2 sweeps from the returned object (same I / y / w objects) differs from 3 sweeps', got=why)
+    if _snap(Ya) != sa:
+        return dict(what='als: the tensor returned by the first call is modified when passed as Y0 to the second call')
+    return None
+
+
+def oracle_history_func(tn, c):
+    """als_func (default path and fh path): same X / y / A0 objects reused, info omitted"""
+    X = np.array(c['X'], dtype=float)
+    y = np.array(c['y'], dtype=float)
+    A0 = [np.array(G, dtype=float) for G in c['A0']]
+    ref = {t: run_als_func_cheb(tn, c, nswp=t) for t in (1, 2, 3)}
+    if any(r_['status'] != 0 for r_ in ref.values()):
+        return None
+    before = (_snap(X), _snap(y), _snap(A0))
+    with warnings.catch_warnings():
+        warnings.simplefilter('ignore')
+        for call, t in enumerate((2, 2, 3)):
+            Y = tn.als_func(X, y, A0, c['a'], c['b'], nswp=t, e=None, lamb=float(c['lamb']))
+            ok, why = cores_close(Y, ref[t]['cores'], 1e-12)
+            if not ok:
+                return dict(what=f'als_func: call {call + 1} on the same argument objects differs from the reference computed from a saved copy',
+                            got=why, call=call + 1)
+            if (_snap(X), _snap(y), _snap(A0)) != before:
+                return dict(what='als_func: an argument is modified by the call', call=call + 1)
+            if any(np.shares_memory(G, G0) for G in Y for G0 in A0):
+                return dict(what='als_func: the result aliases the initial approximation', call=call + 1)
+        Ya = tn.als_func(X, y, A0, c['a'], c['b'], nswp=1, e=None, lamb=float(c['lamb']))
+        sa = _snap(Ya)
+        Yb = tn.als_func(X, y, Ya, c['a'], c['b'], nswp=2, e=None, lamb=float(c['lamb']))
+    ok, why = cores_close(Yb, ref[3]['cores'], 1e-12)
+    if not ok:
+        return dict(what='als_func: 1 sweep, then 2 sweeps from the returned object differs from 3 sweeps', got=why)
+    if _snap(Ya) != sa:
+        return dict(what='als_func: the tensor returned by the first call is modified when passed as A0 to the second call')
+    return None
+
+
+def oracle_forms_func(tn, c):
+    """argument forms of als_func: X / y / A0 containers and dtypes, a / b scalars, fh as one function or a list"""
+    ref = run_als_func_cheb(tn, c, nswp=2)
+    if ref['status'] != 0:
+        return None
+    X = np.array(c['X'], dtype=float)
+    y = np.array(c['y'], dtype=float)
+    A0 = [np.array(G, dtype=float) for G in c['A0']]
+    a, b, lam, n = c['a'], c['b'], float(c['lamb']), c['n']
+    x32 = bool((X.astype(np.float32).astype(float) == X).all())
+    ab_int = float(a).is_integer() and float(b).is_integer()
+    forms = [('X list', dict(X_trn=X.tolist())), ('X F-ordered', dict(X_trn=np.asfortranarray(X))), ('X non-contiguous', dict(X_trn=_noncontig(X))),
+             ('y list', dict(y_trn=y.tolist())), ('y int', dict(y_trn=y.astype(int))), ('y float32', dict(y_trn=y.astype(np.float32))),
+             ('A0 tuple', dict(A0=tuple(G.copy() for G in A0))), ('A0 F-ordered', dict(A0=[np.asfortranarray(G) for G in A0])),
+             ('A0 non-contiguous', dict(A0=[_noncontig(G) for G in A0])),
+             ('a, b np.float64', dict(a=np.float64(a), b=np.float64(b))), ('a, b np.float32', dict(a=np.float32(a), b=np.float32(b))),
+             ('lamb np.float32', dict(lamb=np.float32(lam))), ('nswp np.int64', dict(nswp=np.int64(2))),
+             ('n_max=None, thr_pow explicit', dict(n_max=None, thr_pow=1.E-6, log=False, X_vld=None, y_vld=None, e_vld=None))]
+    if x32:
+        forms.append(('X float32', dict(X_trn=X.astype(np.float32))))
+    if ab_int:
+        forms.append(('a, b Python int', dict(a=int(a), b=int(b))))
+    # fh given explicitly: one function for all modes / a list of d functions, equal to the default basis
+    def fh1(x, a=a, b=b, n=n):
+        return tn.func_basis(tn.poi_scale(x, a, b, kind='cheb'), n)
+    forms += [('fh single function', dict(fh=fh1)), ('fh list', dict(fh=[fh1] * len(A0))), ('fh tuple', dict(fh=tuple([fh1] * len(A0))))]
+    # undocumented forms (a, b are documented as float): may raise, must not silently change the answer
+    maybe = [('a, b 0-d arrays', dict(a=np.array(a), b=np.array(b))), ('A0 int cores', dict(A0=[G.astype(int) for G in A0]))]
+    for name, over in forms + maybe:
+        kw = dict(X_trn=X.copy(), y_trn=y.copy(), A0=[G.copy() for G in A0], a=a, b=b, nswp=2, e=None, info={}, lamb=lam)
+        kw.update(over)
+        try:
+            with warnings.catch_warnings():
+                warnings.simplefilter('ignore')
+                Y = tn.als_func(**kw)
+        except Exception as ex:  # noqa
+            if (name, over) in maybe:
+                continue
+            return dict(what=f'als_func: documented argument form "{name}" is rejected: ' + repr(ex)[:150], form=name)
+        ok, why = cores_close(Y, ref['cores'], 1e-12)
+        if not ok:
+            return dict(what=f'als_func: argument form "{name}" silently gives a different answer than the canonical form', got=why, form=name)
+    return None
+
+
+def gen_degenerate(rng, fam):
+    """degenerate shapes and scales for als: every case is valid input"""
+    c = gen_case(rng, family='generic', d=2 if fam == 'd2' else rng.choice([2, 3]))
+    d = len(c['shape'])
+    if fam == 'm1':
+        c['I'], c['y'], c['w'] = c['I'][:1], c['y'][:1], (c['w'][:1] if c['w'] else None)
+        c['skip'] = True
+    elif fam == 'n1':
+        ks = [0] if rng.random() < 0.5 else list(range(d))
+        for k in ks:
+            c['shape'][k] = 1
+        c['Y0'] = [G.tolist() for G in gen_tensor(rng, c['shape'], 2)]
+        c['I'] = [[min(i, n - 1) for i, n in zip(row, c['shape'])] for row in c['I']]
+        c['skip'] = True
+    elif fam == 'dup-only':
+        row = c['I'][0]
+        c['I'] = [list(row) for _ in c['I']]
+        c['skip'] = True
+    elif fam in ('y*2^300', 'y*2^-300'):
+        sc = 2.0 ** (300 if fam == 'y*2^300' else -300)
+        c['y'] = [float(v) * sc for v in c['y']]
+        c['skip'] = True
+    c['family'] = fam
+    return c
+
+
+def oracle_degenerate(tn, c):
+    """valid degenerate input: no exception, finite result, shape kept, info, descent, restart, sample order"""
+    Y0 = [np.array(G, dtype=float) for G in c['Y0']]
+    Js = [J_ind(Y0, c['I'], c['y'], c['w'], c['lamb'])]
+    runs = {}
+    for t in (1, 2, 3):
+        r_ = call_als(tn, canon_kw(c, nswp=t))
+        if r_['status'] != 0:
+            return dict(what=f'als raised on a valid degenerate input ({c["family"]}): ' + r_.get('error', ''))
+        if not all(np.isfinite(G).all() for G in r_['cores']):
+            return dict(what=f'als returned non-finite cores on a valid degenerate input ({c["family"]})')
+        if [G.shape for G in r_['cores']] != [G.shape for G in Y0]:
+            return dict(what=f'als changed the shape / ranks of the initial approximation ({c["family"]})')
+        if r_['nswp'] != t or r_['stop'] != STOP['nswp']:
+            return dict(what=f'info does not report the executed sweep count / stop reason ({c["family"]})', got=[r_['nswp'], r_['stop']])
+        runs[t] = r_
+        Js.append(J_ind(r_['cores'], c['I'], c['y'], c['w'], c['lamb']))
+    for t in range(1, 4):
+        if Js[t] > Js[t - 1] * (1 + TOL) + 1e-300:
+            return dict(what=f'training objective increased from sweep to sweep ({c["family"]})', got=Js, sweep=t)
+    if c['family'].startswith('y*'):
+        return None
+    rb = call_als(tn, canon_kw(c, nswp=2, Y0=[G.copy() for G in runs[1]['cores']]))
+    ok, why = cores_close(rb.get('cores', []), runs[3]['cores'], 1e-12)
+    if not ok:
+        return dict(what=f'1+2 sweeps differ from 1 sweep, restart, 2 sweeps ({c["family"]})', got=why)
+    m = len(c['I'])
+    perm = list(reversed(range(m)))
+    cp = dict(c, I=[c['I'][j] for j in perm], y=[c['y'][j] for j in perm], w=None if c['w'] is None else [c['w'][j] for j in perm])
+    rp = call_als(tn, canon_kw(cp, nswp=3))
+    ok, why = cores_close(rp.get('cores', []), runs[3]['cores'], TOL)
+    if not ok:
+        return dict(what=f'result depends on the order of the training samples ({c["family"]})', got=why)
+    return None
+
+
+def oracle_wlamb_scale(tn, c):
+    """exact invariance: (w, lamb) -> (2^k w, 2^k lamb) leaves every normal equation, hence the result, unchanged"""
+    w = [float(v) for v in ones(c)]
+    ref = call_als(tn, canon_kw(c, w=np.array(w)))
+    if ref['status'] != 0:
+        return None
+    for k in (300, -300, 1000 - 60, -1000):
+        sc = 2.0 ** k
+        res = call_als(tn, canon_kw(c, w=np.array(w) * sc, lamb=float(c['lamb']) * sc))
+        ok, why = cores_close(res.get('cores', []), ref['cores'], TOL)
+        if not ok:
+            return dict(what=f'als: scaling the weights and lamb by 2^{k} changes the result', got=why, k=k, error=res.get('error'))
+    return None
+
+
 def oracle_adaptive(tn, c, r):
+    # missing slice data must be rejected in the rank-adaptive mode too (ValueError unless allow_skip_cores)
+    d = len(c['shape'])
+    k0 = max(range(d), key=lambda k: c['shape'][k])
+    if c['shape'][k0] >= 2:
+        i0 = c['I'][0][k0]
+        Im = [list(row) for row in c['I']]
+        for row in Im:
+            if row[k0] == i0:
+                row[k0] = (i0 + 1) % c['shape'][k0]
+        rm = run_als(tn, c, nswp=1, r=r, I=Im, skip=False)
+        if rm['status'] != 1:
+            return dict(what='rank-adaptive als (r given): missing slice data is not rejected with ValueError '
+                             '(allow_skip_cores=False)', got=rm.get('status'), expected=1, I_missing=Im, slice=[k0, i0])
+        rs = run_als(tn, c, nswp=1, r=r, I=Im, skip=True)
+        if rs['status'] == 1:
+            return dict(what='rank-adaptive als (r given): allow_skip_cores=True still raises ValueError for missing slice data',
+                        I_missing=Im, slice=[k0, i0])
     res = run_als(tn, c, nswp=2, r=r)
     if res['status'] != 0:
         return dict(what='adaptive als raised: ' + res.get('error', ''))
@@ -1153,6 +1507,40 @@ def search(R, ctx, deep, hints):
             push('als', jcase(c), oracle_als(tn, c))
         except Exception as ex:  # noqa
             push('als', jcase(c), dict(what='oracle raised: ' + repr(ex)[:200]))
+    # cross-cutting families: argument forms, histories on reused objects, scales and degenerate shapes
+    xr = C.Rng(4242 + ctx['seed'] % 1000)
+    xfams = ['generic', 'weights', 'dup', 'singlep']
+    for t in range(12 if deep else 3):
+        if len(fails) >= 5:
+            break
+        c = gen_case(xr, family=xfams[t % len(xfams)], d=[3, 2, 3, 4][t % 4])
+        for kind, fn in (('forms', oracle_forms), ('history', oracle_history), ('wlamb', oracle_wlamb_scale)):
+            n_eval += 1
+            try:
+                push(kind, jcase(c), fn(tn, c))
+            except Exception as ex:  # noqa
+                push(kind, jcase(c), dict(what=f'{kind} oracle raised: ' + repr(ex)[:200]))
+    for t, fam in enumerate(['m1', 'n1', 'd2', 'dup-only', 'y*2^300', 'y*2^-300'] * (3 if deep else 1)):
+        if len(fails) >= 5:
+            break
+        c = gen_degenerate(xr, fam)
+        n_eval += 1
+        try:
+            push('degenerate', jcase(c), oracle_degenerate(tn, c))
+        except Exception as ex:  # noqa
+            push('degenerate', jcase(c), dict(what='degenerate oracle raised: ' + repr(ex)[:200]))
+    for t in range(9 if deep else 3):
+        if len(fails) >= 5:
+            break
+        c = gen_cheb_case(xr, box=BOXES[(2 * t) % len(BOXES)])
+        if t % 3 == 2:
+            c['X'], c['y'] = c['X'][:1], c['y'][:1]          # a single sample
+        for kind, fn in (('forms_func', oracle_forms_func), ('history_func', oracle_history_func)):
+            n_eval += 1
+            try:
+                push(kind, jcheb(c), fn(tn, c))
+            except Exception as ex:  # noqa
+                push(kind, jcheb(c), dict(what=f'{kind} oracle raised: ' + repr(ex)[:200]))
     for t in range(20 if deep else 4):
         if len(fails) >= 5:
             break
@@ -1209,6 +1597,12 @@ def replay(data):
     elif kind == 'func':
         c = dict(inp, lamb=Fraction(inp['lamb']))
         f = oracle_func(tn, c)
+    elif kind in ('forms', 'history', 'wlamb', 'degenerate'):
+        c = dict(inp, lamb=Fraction(inp['lamb']), w=[Fraction(v) for v in inp['w']] if inp.get('w') else None)
+        f = dict(forms=oracle_forms, history=oracle_history, wlamb=oracle_wlamb_scale, degenerate=oracle_degenerate)[kind](tn, c)
+    elif kind in ('forms_func', 'history_func'):
+        c = dict(inp, lamb=Fraction(inp['lamb']))
+        f = dict(forms_func=oracle_forms_func, history_func=oracle_history_func)[kind](tn, c)
     elif kind == 'func_cheb':
         c = dict(inp, lamb=Fraction(inp['lamb']))
         f = oracle_func_cheb(tn, c)
